@@ -23,6 +23,7 @@ sys.path.insert(0, os.environ.get("HEXITAL_REPO", "/repo"))  # /repo unless a ru
 from catalog import ref  # noqa: E402
 from proj import candles as proj_candles  # noqa: E402
 from proj import delta, val  # noqa: E402
+import proj as proj_mod  # noqa: E402
 from streams import base_for, tf_seconds  # noqa: E402
 
 NOIDX = 999999
@@ -44,7 +45,12 @@ def mk_candles(stream, base, a, b, form="candle"):
         t = base + timedelta(seconds=ts) if ts is not None else None
         if aware is not None and t is not None:
             t = t.replace(tzinfo=timezone.utc).astimezone(aware)
-        if form == "candle":
+        if form == "candle_fold":
+            # naive stamps flagged fold=1 (what datetime.fromtimestamp hands out during a repeated hour, and what
+            # survives pickling): for a naive wall-clock stamp the flag carries no information
+            out.append(Candle(open=o, high=h, low=l, close=c, volume=v,
+                              timestamp=t.replace(fold=1) if t is not None else None))
+        elif form == "candle":
             out.append(Candle(open=o, high=h, low=l, close=c, volume=v, timestamp=t))
         elif form == "dict":
             out.append({"open": o, "high": h, "low": l, "close": c, "volume": v, "timestamp": t})
@@ -107,15 +113,15 @@ def raw_json(stream, readings=None):
             d[k] = r
             x &= e
         rd = readings[pos] if readings else {}
-        d.update({"x": x, "ts": NO_TS if ts is None else int(ts), "tag": "", "cl": [],
+        d.update({"x": x, "ts": NO_TS if ts is None else int(ts * proj_mod.SUB), "tag": "", "cl": [],
                   "ik": list(rd.keys()), "iv": [val(v_) for v_ in rd.values()], "sk": [], "sv": []})
         out.append(d)
     return out
 
 
 def mgr_cfg(name, tf, fill, life, ha, src=0, late=0):
-    return {"nm": name, "tf": tf_seconds(tf), "fill": bool(fill),
-            "life": -1 if life is None else int(life.total_seconds()), "ha": bool(ha),
+    return {"nm": name, "tf": tf_seconds(tf) * proj_mod.SUB, "fill": bool(fill),
+            "life": -1 if life is None else int(round(life.total_seconds() * proj_mod.SUB)), "ha": bool(ha),
             "src": src, "late": late}
 
 
@@ -159,7 +165,8 @@ class Session:
     def new(self, k):
         sc = self.sc
         form0 = sc.get("form", "candle")
-        cands = mk_candles(sc["stream"], self.base, 1, k, form0 if form0.startswith("aware") else "candle")
+        cands = mk_candles(sc["stream"], self.base, 1, k,
+                           form0 if form0.startswith("aware") or form0 == "candle_fold" else "candle")
         self.cfgs = list(sc["inds"]) + list(sc.get("late", []))
         if sc["obj"] == "mgr":
             from hexital.core.candle_manager import CandleManager
@@ -547,7 +554,47 @@ def record_scale(sc):
     return {"id": sc["id"], "fam": sc["fam"], "mg": mg, "ind": inds, "mute": [], "raw": [], "ev": [ev]}
 
 
+class CallDidNotReturn(Exception):
+    """a library call that ran longer than STEP_LIMIT seconds (a well-formed call returns in milliseconds)"""
+
+
+STEP_LIMIT = 30
+
+
+class _limit:
+    """wall-clock limit on one library call (main thread only; elsewhere it is a no-op)"""
+
+    def __enter__(self):
+        import signal
+        import threading
+
+        self.on = threading.current_thread() is threading.main_thread()
+        if self.on:
+            def _raise(signum, frame):
+                raise CallDidNotReturn()
+
+            self.old = signal.signal(signal.SIGALRM, _raise)
+            signal.setitimer(signal.ITIMER_REAL, STEP_LIMIT)
+        return self
+
+    def __exit__(self, *a):
+        if self.on:
+            import signal
+
+            signal.setitimer(signal.ITIMER_REAL, 0)
+            signal.signal(signal.SIGALRM, self.old)
+        return False
+
+
 def record(sc):
+    proj_mod.SUB = int(sc.get("sub", 1))
+    try:
+        return _record(sc)
+    finally:
+        proj_mod.SUB = 1
+
+
+def _record(sc):
     if sc.get("scale"):
         return record_scale(sc)
     tfs = ([c.timeframe for c in sc["inds"] + sc.get("late", [])] + [sc.get("hex", {}).get("timeframe")]
@@ -575,12 +622,14 @@ def record(sc):
             if worker and step[0] == "append" and step[1] == step[2] and ses.obj is not None:
                 worker.start(ses)
                 try:
-                    reads = ses.run(step)
+                    with _limit():
+                        reads = ses.run(step)
                 finally:
                     wk = [worker.stop(ses)]
             else:
-                reads = ses.run(step)
-        except Exception as e:  # recorded, judged by the spec
+                with _limit():
+                    reads = ses.run(step)
+        except Exception as e:  # recorded, judged by the spec (a call that does not return included)
             exc = type(e).__name__
         if ses.obj is None:
             snaps.append(({"op": step[0], "a": 0, "b": step[1] if step[0] == "new" else 0, "nm": "", "idx": 0,
